@@ -2,6 +2,7 @@ package main
 
 import (
 	"bytes"
+	"encoding/hex"
 	"fmt"
 	"strings"
 
@@ -171,6 +172,14 @@ func init() {
 			for _, scheme := range []string{"", "bitcoin-scripts", "bitcoin-script-v2", "Bitcoin-script", "bitcoin-scrip", "xbitcoin-script", "bitcoin-script "} {
 				free = append(free, refaddr.EncodeBIP276(refaddr.BIP276{Prefix: scheme, Version: 1, Network: 1, Data: d}))
 			}
+		}
+		// texts whose checksum is correct for the text AS WRITTEN: upper-case hex digits in header
+		// and data (both cases are hex), something in front of the scheme (a line, a word)
+		ck := func(body string) string { return body + hex.EncodeToString(refaddr.Sha256d([]byte(body))[:4]) }
+		for _, d := range [][]byte{{0x76, 0xa9, 0x14, 0xde, 0xad, 0xbe, 0xef, 0x88, 0xac}, {0xab, 0xcd, 0xef}, bytes.Repeat([]byte{0xfa}, 30)} {
+			up := strings.ToUpper(hex.EncodeToString(d))
+			free = append(free, ck("bitcoin-script:0101"+up), ck("bitcoin-script:0A0A"+up), ck("bitcoin-script:0101"+up[:2]+strings.ToLower(up[2:])),
+				ck("first line\nbitcoin-script:0101"+up), ck("x\nbitcoin-script:0101"+strings.ToLower(up)), ck("bitcoin-script:0101"+strings.ToLower(up)+"\n"), ck(" bitcoin-script:0101"+strings.ToLower(up)))
 		}
 		for i, t := range free {
 			if c.Case(uint64(i)) {
